@@ -191,3 +191,190 @@ def forked_use(eng, ckpt: Checkpoint, skill: str):
     store = ckpt.restore()
     _store, events = play(store, {"name": skill, "method": "use", "payload": None}, eng._router)
     return events
+
+
+# ------------------------------------------------------------------ L2 model correspondence
+from fractions import Fraction
+
+UNIT = 1024          # grid: 2^-10 ms
+
+
+class OffGrid(Exception):
+    pass
+
+
+def units(x) -> str:
+    fr = Fraction(x) * UNIT
+    if fr.denominator != 1:
+        raise OffGrid(str(x))
+    return str(fr.numerator)
+
+
+def ratq(x) -> str:
+    fr = Fraction(x)
+    return f"{fr.numerator}/{fr.denominator}"
+
+
+def enc_entity(ent) -> dict:
+    cls = type(ent).__name__
+    d = ent.model_dump()
+    if cls == "Cooldown":
+        return {"time_left": units(d["time_left"])}
+    if cls == "Lasting":
+        return {"time_left": units(d["time_left"]), "assigned_duration": units(d["assigned_duration"])}
+    if cls == "Periodic":
+        return {"interval": units(d["interval"]),
+                "initial_counter": None if d["initial_counter"] is None else units(d["initial_counter"]),
+                "interval_counter": units(d["interval_counter"]), "time_left": units(d["time_left"]),
+                "count": str(int(d["count"]))}
+    if cls == "ProgrammedPeriodic":
+        return {"interval_counter": units(d["interval_counter"]), "intervals": [units(x) for x in d["intervals"]],
+                "time_left": units(d["time_left"]), "count": str(int(d["count"]))}
+    if cls == "Keydown":
+        return {"interval": units(d["interval"]), "interval_counter": units(d["interval_counter"]),
+                "time_left": units(d["time_left"])}
+    raise KeyError(cls)
+
+
+MODELLED = {"BuffSkillComponent", "AttackSkillComponent", "DOTEmittingAttackSkillComponent",
+            "PeriodicDamageConfiguratedAttackSkillComponent", "ProgrammedPeriodicComponent",
+            "TriggableBuffSkillComponent", "KeydownSkillComponent"}
+
+
+def params_of(comp, state) -> dict:
+    cls = type(comp).__name__
+    dyn = state.dynamics.stat
+    p = {"cd_eff": units(dyn.calculate_cooldown(comp.cooldown_duration)), "delay": units(comp.delay),
+         "disable_validity": bool(comp.disable_validity)}
+    if cls in ("BuffSkillComponent", "TriggableBuffSkillComponent"):
+        p["last_eff"] = units(dyn.calculate_buff_duration(comp.lasting_duration) if comp.apply_buff_duration
+                              else comp.lasting_duration)
+    if cls == "TriggableBuffSkillComponent":
+        p.update(trigger_cooldown=units(comp.trigger_cooldown_duration), trigger_damage=ratq(comp.trigger_damage),
+                 trigger_hit=ratq(comp.trigger_hit))
+    if cls in ("AttackSkillComponent", "DOTEmittingAttackSkillComponent", "PeriodicDamageConfiguratedAttackSkillComponent",
+               "ProgrammedPeriodicComponent"):
+        p.update(damage=ratq(comp.damage), hit=ratq(comp.hit))
+    if cls == "DOTEmittingAttackSkillComponent":
+        p.update(dot_damage=ratq(comp.dot_damage), dot_lasting=units(comp.dot_lasting_duration))
+    if cls in ("PeriodicDamageConfiguratedAttackSkillComponent", "ProgrammedPeriodicComponent"):
+        p.update(periodic_damage=ratq(comp.periodic_damage), periodic_hit=ratq(comp.periodic_hit),
+                 lasting_duration=units(comp.lasting_duration))
+    if cls == "KeydownSkillComponent":
+        p.update(maximum_keydown_time=units(comp.maximum_keydown_time), prepare_delay=units(comp.keydown_prepare_delay),
+                 damage=ratq(comp.damage), hit=ratq(comp.hit), finish_damage=ratq(comp.finish_damage),
+                 finish_hit=ratq(comp.finish_hit), end_delay=units(comp.keydown_end_delay))
+    return p
+
+
+def enc_state(state) -> dict:
+    return {name: enc_entity(ent) for name, ent in dict(state).items() if name != "dynamics"}
+
+
+def enc_revents(comp, events) -> list:
+    """real reducer events -> the model's event shapes (before dispatcher tagging)"""
+    if events is None:
+        return []
+    if not isinstance(events, list):
+        events = [events]
+    out = []
+    default_modifier = comp.modifier.model_dump() if getattr(comp, "modifier", None) is not None else None
+    for e in events:
+        tag, payload = e["tag"], e["payload"]
+        if tag == Tag.ELAPSED:
+            out.append(["elapsed", units(payload["time"])])
+        elif tag == Tag.REJECT:
+            out.append(["rejected"])
+        elif tag == Tag.DELAY:
+            out.append(["delayed", units(payload["time"])])
+        elif tag == Tag.DAMAGE:
+            if payload.get("modifier") != default_modifier:
+                raise KeyError("non-default modifier")
+            out.append(["dealt", ratq(payload["damage"]), ratq(payload["hit"])])
+        elif tag == Tag.KEYDOWN_END:
+            out.append(["keydown_end"])
+        elif tag == Tag.MOB and e["method"] == "add_dot":
+            out.append(["add_dot", ratq(payload["damage"]), units(payload["lasting_time"])])
+        else:
+            raise KeyError(f"event tag {tag}")
+    return out
+
+
+def enc_view(value):
+    name = type(value).__name__
+    if name == "Validity":
+        return {"time_left": units(value.time_left), "valid": value.valid,
+                "stack": None if value.stack is None else str(int(value.stack))}
+    if name == "Running":
+        return {"time_left": units(value.time_left), "lasting_duration": units(value.lasting_duration),
+                "stack": None if value.stack is None else str(int(value.stack))}
+    if name == "KeydownView":
+        return {"time_left": units(value.time_left), "running": value.running}
+    if name == "Stat" or value is None:
+        return value is not None         # the `buff` view: switched on or not (the block itself is a constant)
+    raise KeyError(name)
+
+
+def model_request(call) -> Optional[tuple[dict, Any]]:
+    """driver request and expected answer for one harvested reducer/view call of a modelled class;
+    None if the class/method is not modelled; raises OffGrid if a time is off the 2^-10 ms grid"""
+    comp, method, args = call["owner"], call["method"], call["args"]
+    cls = type(comp).__name__
+    if cls not in MODELLED or method == "info":
+        return None
+    state = args[-1]
+    params = params_of(comp, state)
+    if call["is_view"]:
+        value = getattr(comp, method)(copy.deepcopy(state))
+        return ({"fn": "cview", "cls": cls, "view": method, "params": params, "state": enc_state(state)}, enc_view(value))
+    payload = args[0]
+    new_state, events = getattr(comp, method)(copy.deepcopy(payload), copy.deepcopy(state))
+    req = {"fn": "reducer", "cls": cls, "method": method, "params": params, "state": enc_state(state),
+           "payload": units(payload) if isinstance(payload, (int, float)) and not isinstance(payload, bool) else None}
+    return (req, {"state": enc_state(new_state), "events": enc_revents(comp, events)})
+
+
+def harvest_model_requests(cmds, job, variant, per_key=12, views=True):
+    """run the plan with the call harvest on; return driver requests + expected answers for the calls of
+    modelled classes, and counts per class (modelled / unmodelled / skipped off-grid)"""
+    reqs, expect = [], []
+    stats = {"modelled_calls": 0, "unmodelled_calls": 0, "offgrid_skipped": 0, "other_skipped": 0,
+             "modelled_classes": {}, "unmodelled_classes": {}}
+    with Harvest(per_key) as hv:
+        eng = make_engine(job, variant)
+        for i, c in enumerate(cmds):
+            eng.exec(c)
+            if views and i % 3 == 0:
+                eval_views(eng)
+    for _sig, call in hv.calls.items():
+        cls = type(call["owner"]).__name__
+        if cls not in MODELLED:
+            stats["unmodelled_calls"] += 1
+            stats["unmodelled_classes"][cls] = stats["unmodelled_classes"].get(cls, 0) + 1
+            continue
+        try:
+            r = model_request(call)
+        except OffGrid:
+            stats["offgrid_skipped"] += 1
+            continue
+        except KeyError:
+            stats["other_skipped"] += 1
+            continue
+        if r is None:
+            continue
+        stats["modelled_calls"] += 1
+        key = f"{cls}.{call['method']}"
+        stats["modelled_classes"][key] = stats["modelled_classes"].get(key, 0) + 1
+        reqs.append(r[0])
+        expect.append(r[1])
+    return reqs, expect, stats
+
+
+def merge_stats(total: dict, part: dict):
+    for k, v in part.items():
+        if isinstance(v, dict):
+            slot = total.setdefault(k, {})
+            for kk, vv in v.items():
+                slot[kk] = slot.get(kk, 0) + vv
+        else:
+            total[k] = total.get(k, 0) + v
